@@ -53,6 +53,7 @@ type CallsiteSpec struct {
 	Label  string
 	Expr   ast.Expr
 	Src    string
+	Props  []string
 }
 
 type Contract struct {
@@ -763,11 +764,18 @@ func (c *Contract) addClause(kw, rest string) error {
 		}
 		body := strings.TrimSpace(strings.TrimPrefix(strings.TrimSpace(strings.TrimPrefix(rest, f[0])), "requires"))
 		label, e := splitLabel(body)
+		var props []string
+		if strings.HasPrefix(e, "[") {
+			if j := strings.Index(e, "]"); j > 0 {
+				props = strings.Fields(e[1:j])
+				e = strings.TrimSpace(e[j+1:])
+			}
+		}
 		x, err := parser.ParseExpr(e)
 		if err != nil {
 			return err
 		}
-		c.Callsites = append(c.Callsites, CallsiteSpec{Callee: f[0], Label: label, Expr: x, Src: e})
+		c.Callsites = append(c.Callsites, CallsiteSpec{Callee: f[0], Label: label, Expr: x, Src: e, Props: props})
 	default:
 		return fmt.Errorf("unknown clause %q", kw)
 	}
